@@ -3,9 +3,9 @@
 import json, os, glob, re
 V = os.path.dirname(os.path.dirname(os.path.abspath(__file__)))
 rows = []
-for d in sorted(glob.glob(os.path.join(V, "seeded", "*"))):
+for d in sorted(glob.glob(os.path.join(V, "seeded", "*", ""))):
     m = json.load(open(os.path.join(d, "meta.json")))
-    sid = os.path.basename(d)
+    sid = os.path.basename(d.rstrip("/"))
     oc = m.get("our_check", {})
     rows.append("| `%s` | %s | %s | %s | %s | %s |" % (
         sid, m.get("property", "?"),
